@@ -1,5 +1,7 @@
 """property -> rules mapping and the run context (facts per cfg configuration, thorough-tier matrix)."""
 import facts
+import r01_dualflow
+import r02_sweep
 import r04_conv
 import r05_select
 import r16_frame
@@ -74,12 +76,57 @@ def r16(ctx, prop):
     return rs
 
 
+def _r1(ctx, prop, want, sel=None):
+    key = ("r1", sel.__name__ if sel else None)
+    rs = r01_dualflow.run(ctx.F(), sel)
+    return [r for r in rs if r.rule in want]
+
+
+def r1_all(ctx, prop):
+    return _r1(ctx, prop, ("R1a", "R1c"))
+
+
+def r1_guard(ctx, prop):
+    return _r1(ctx, prop, ("R1b",))
+
+
+def _sel_functional(fk):
+    return "FunctionalContribution" in fk or "::dft::" in fk or fk.startswith("feos_dft::")
+
+
+def _sel_idealgas(fk):
+    return "IdealGas" in fk or "::ideal_gas::" in fk
+
+
+def r1_functional(ctx, prop):
+    rs = _r1(ctx, prop, ("R1a", "R1c"), _sel_functional)
+    for r in rs:
+        r.floors = []
+        r.findings = [f for f in r.findings if "floor|" not in f.key]
+    return rs
+
+
+def r1_idealgas(ctx, prop):
+    rs = _r1(ctx, prop, ("R1a", "R1c"), _sel_idealgas)
+    for r in rs:
+        r.floors = []
+        r.findings = [f for f in r.findings if "floor|" not in f.key]
+    return rs
+
+
+def r2(ctx, prop):
+    return r02_sweep.run(ctx.F())
+
+
 PROPERTY_RULES = {
+    "C01": [r1_all, r2, r7, r8, r4],
+    "C13": [r1_guard, r8],
+    "C17": [r1_functional, r8],
     "C11": [r9, r7],
     "C03": [r6, r4, r5],
     "C04": [r4],
     "C05": [r4, r5, r16],
-    "C06": [r4],
+    "C06": [r4, r1_all],
     "C07": [r5, r4],
     "C18": [r4, r16],
 }
